@@ -252,7 +252,9 @@ package heapq
 // heap were in it before, and the heap contracts state that for the multiset only.
 //@ func Sort
 //@   role cmp ord
-//@   ensures [C05] outside: unchanged_outside(vs)
+//@   ensures outside: unchanged_outside(vs)
 //@   modifies elems(vs), rep
-//@   loop 1: invariant [C05] heap: q != nil && fresh(q) && heapOK(q) && q.data.base == vs.base && q.data.off == vs.off && len(q.data) <= len(vs) && unchanged_outside(vs) && other_arrays_unchanged(vs)
+//@   loop 1: invariant frame: q != nil && fresh(q) && q.data.base == vs.base && q.data.off == vs.off && len(q.data) <= len(vs) && unchanged_outside(vs) && other_arrays_unchanged(vs)
+//@   loop 1: invariant [C05] heap: heapOK(q)
+//@   loop 1: invariant [C06] tracked: trk(q, 0)
 //@   loop 1: decreases len(q.data)
